@@ -8,7 +8,13 @@
   the `(id, value)` attributes of its `<time>` children (gzip, the utf-8-sig
   codec and `xml.etree` are trusted; the harness writes real `.gz` files).
 
-  Mathlib-free; times are exact rationals (`Rat` of core Lean).
+  Mathlib-free.  The ARITHMETIC the times are computed and compared in is a
+  parameter (`Arith τ`): the code uses IEEE doubles (`floatArith`, Lean's
+  `Float`, which the driver executes and the kernel evaluates on closed terms);
+  the specification of "the pause exceeds the break duration" is stated over
+  exact rationals (`ratArith`, `Rat` of core Lean).  Every C19 theorem that does
+  not look inside the comparison holds for every arithmetic; the two are linked
+  by `CompareAgrees` / `TimesExact` (end of the time section).
 -/
 import PyndlModel.Ndl
 
@@ -29,12 +35,21 @@ def specMarker : Str := "\n---END.OF.DOCUMENT---\n\n".toList
 /-- corpus.py:21 `PUNCTUATION = tuple(".,:;?!()[]'")` -/
 def punctuation : List Char := ".,:;?!()[]'".toList
 
-structure Cfg where
-  fps : Nat
-  brk : Rat
-  marker : Str
+/-- The arithmetic of `_parse_time_string` and of the paragraph test
+    (corpus.py:31-34, 62, 91-92), abstracted: `τ` is the type of a time value. -/
+structure Arith (τ : Type) where
+  /-- `last_time = 0.0` (corpus.py:62) -/
+  zero : τ
+  /-- `float(field)` on one of the four fields; `none` = `ValueError` -/
+  lit : Str → Option τ
+  /-- `h * 60 * 60 + m * 60 + s + f / FRAMES_PER_SECOND` (left to right) -/
+  time : τ → τ → τ → τ → τ
+  /-- `current_time - last_time > break_duration` -/
+  exceeds : (cur last : τ) → Bool
 
-def specCfg : Cfg := ⟨specFps, specBreak, specMarker⟩
+structure Cfg (τ : Type) where
+  arith : Arith τ
+  marker : Str
 
 /-! ## the document as `xml.etree` presents it -/
 
@@ -67,24 +82,135 @@ def splitOnChar (sep : Char) : Str → List Str
 def digitVal (c : Char) : Option Nat :=
   if 48 ≤ c.toNat ∧ c.toNat ≤ 57 then some (c.toNat - 48) else none
 
-/-- `float(field)` restricted to non-empty ASCII digit strings (the only
-    fields generated; anything else is predicted `ValueError`, which is what
-    `float('')`, `float('x')` give — signs, exponents, blanks, '_' and
-    non-ASCII digits, which `float` also accepts, are out of scope). -/
+/-- A non-empty string of ASCII digits read as a number.  This is the literal
+    reader of the two executable arithmetics below: on such a field
+    `float(field)` is that integer (exactly, below 2^53).  `float` accepts more
+    spellings (`'1.5'`, `'+1'`, `' 1 '`, `'1_0'`, `'1e3'`, `'inf'`, `'nan'`, non-ASCII
+    digits); they are OUTSIDE this reader's domain — see `floatAccepts` /
+    `LitDomain` below, which make the domain a decidable predicate. -/
 def parseNat : Str → Option Nat
   | [] => none
   | cs => cs.foldlM (fun acc c => (digitVal c).map (fun d => acc * 10 + d)) 0
 
 /-- corpus.py:30-34: `replace(',', ':').split(':')` must give exactly four
-    fields (else the tuple unpacking raises `ValueError`). -/
-def parseTime (fps : Nat) (s : Str) : Except Err Rat :=
+    fields (else the tuple unpacking raises `ValueError`); then `float()` is
+    applied to each of the four (every failure is a `ValueError`, so the order
+    in which the fields are converted is not observable). -/
+def parseTime {τ : Type} (A : Arith τ) (s : Str) : Except Err τ :=
   match splitOnChar ':' (s.map (fun c => if c = ',' then ':' else c)) with
   | [h, m, sec, f] =>
-    match parseNat h, parseNat m, parseNat sec, parseNat f with
-    | some h, some m, some sec, some f =>
-      .ok ((h : Rat) * 60 * 60 + (m : Rat) * 60 + (sec : Rat) + (f : Rat) / (fps : Rat))
+    match A.lit h, A.lit m, A.lit sec, A.lit f with
+    | some h, some m, some sec, some f => .ok (A.time h m sec f)
     | _, _, _, _ => .error .value
   | _ => .error .value
+
+/-! ### the two arithmetics -/
+
+/-- exact rationals: the arithmetic the SPECIFICATION is stated in -/
+def ratArith (fps : Nat) (brk : Rat) : Arith Rat where
+  zero := 0
+  lit f := (parseNat f).map (fun n => (n : Rat))
+  time h m s f := h * 60 * 60 + m * 60 + s + f / (fps : Rat)
+  exceeds cur last := decide (cur - last > brk)
+
+/-- IEEE doubles: the arithmetic the CODE uses (`float(...)`, `*`, `+`, `/`, `-`,
+    `>` of CPython are the C double operations, as are Lean's on `Float`).
+    `brk` is the double the caller passes (`5.0` in `create_corpus_from_gz`). -/
+def floatArith (fps : Nat) (brk : Float) : Arith Float where
+  zero := 0.0
+  lit f := (parseNat f).map Float.ofNat
+  time h m s f := h * 60 * 60 + m * 60 + s + f / Float.ofNat fps
+  exceeds cur last := decide (cur - last > brk)
+
+/-- the double nearest to a rational with numerator and denominator below 2^53
+    (one correctly rounded division; what `float(Fraction(q))` gives) -/
+def floatOfRat (q : Rat) : Float := Float.ofInt q.num / Float.ofNat q.den
+
+/-- a configuration over doubles (what the code computes) … -/
+def cfgF (fps : Nat) (brk : Rat) (marker : Str) : Cfg Float := ⟨floatArith fps (floatOfRat brk), marker⟩
+/-- … and the same over exact rationals (what the specification says) -/
+def cfgQ (fps : Nat) (brk : Rat) (marker : Str) : Cfg Rat := ⟨ratArith fps brk, marker⟩
+
+/-- the configuration of `create_corpus_from_gz`: doubles, 30 fps, 5.0 s -/
+def specCfgF : Cfg Float := cfgF specFps specBreak specMarker
+/-- the same constants over exact rationals (the specification) -/
+def specCfg : Cfg Rat := cfgQ specFps specBreak specMarker
+
+/-! ### the literal domain of `parseNat`, as a decidable predicate
+
+`floatAccepts` decides, for an ASCII string, whether CPython's `float(str)`
+returns (rather than raising `ValueError`): `PyFloat_FromString` →
+`_Py_string_to_number_with_underscores` (underscores only between two digits) →
+`float_from_string_inner` (strip `Py_ISSPACE`: 9–13 and 32) →
+`PyOS_string_to_double` (optional sign, then `inf` / `infinity` / `nan` in any
+case, or digits with an optional `.` and at least one digit, optional exponent
+`e[+-]digits`; the whole string must be consumed).  It is compared with the
+real `float` in the differential run; no theorem depends on it except through
+`LitDomain`. -/
+
+def isAsciiDigit (c : Char) : Bool := 48 ≤ c.toNat && c.toNat ≤ 57
+
+def isFloatSpace (c : Char) : Bool := (9 ≤ c.toNat && c.toNat ≤ 13) || c.toNat = 32
+
+/-- `_Py_string_to_number_with_underscores`: the string without its
+    underscores, `none` when one is not between two digits -/
+def dropUnderscores : Char → Str → Option Str
+  | prev, [] => if prev = '_' then none else some []
+  | prev, c :: cs =>
+    if c = '_' then (if isAsciiDigit prev then dropUnderscores '_' cs else none)
+    else if prev = '_' && !isAsciiDigit c then none
+    else (dropUnderscores c cs).map (c :: ·)
+
+def lowerAscii (c : Char) : Char :=
+  if 65 ≤ c.toNat ∧ c.toNat ≤ 90 then Char.ofNat (c.toNat + 32) else c
+
+def dropSign : Str → Str
+  | '+' :: r => r
+  | '-' :: r => r
+  | s => s
+
+/-- `PyOS_string_to_double` consumes the whole (stripped, underscore-free) string -/
+def floatBody (s : Str) : Bool :=
+  let s := dropSign s
+  let low := s.map lowerAscii
+  if low = "inf".toList ∨ low = "infinity".toList ∨ low = "nan".toList then true
+  else
+    let d1 := s.takeWhile isAsciiDigit
+    let r1 := s.dropWhile isAsciiDigit
+    let (d2, r2) := match r1 with
+      | '.' :: r => (r.takeWhile isAsciiDigit, r.dropWhile isAsciiDigit)
+      | _ => ([], r1)
+    if d1.isEmpty && d2.isEmpty then false
+    else match r2 with
+      | [] => true
+      | e :: r3 =>
+        (e = 'e' || e = 'E') && !(dropSign r3).isEmpty && (dropSign r3).all isAsciiDigit
+
+/-- `float(s)` returns (for an ASCII `s`) -/
+def floatAccepts (s : Str) : Bool :=
+  match (if s.contains '_' then dropUnderscores (Char.ofNat 0) s else some s) with
+  | none => false
+  | some t => floatBody ((t.dropWhile isFloatSpace).reverse.dropWhile isFloatSpace).reverse
+
+/-- `float(s)` raises `ValueError` for certain: `s` is ASCII and not a float literal -/
+def floatRejects (s : Str) : Bool := s.all (fun c => c.toNat < 128) && !floatAccepts s
+
+/-- bound on a time field under which all the double arithmetic on whole numbers
+    is exact and the rounding argument of `FloatCompareAgrees` applies -/
+def fieldBound : Nat := 16777216   -- 2^24
+
+/-- **the literal domain.** A time value on which the executable arithmetics say
+    what the code does: it does not split into four fields (`ValueError` whatever
+    the fields are), or one of the four is certainly rejected by `float`
+    (`ValueError`), or all four are digit strings below 2^24.  Outside (e.g.
+    `'00:00:1.5,00'`, `'00:00:+1,00'`) the code succeeds with a time these
+    arithmetics do not compute and the model's `ValueError` is NOT a prediction. -/
+def LitDomain (v : Str) : Bool :=
+  match splitOnChar ':' (v.map (fun c => if c = ',' then ':' else c)) with
+  | [h, m, s, f] =>
+    [h, m, s, f].any floatRejects ||
+      [h, m, s, f].all (fun x => match parseNat x with | some n => n < fieldBound | none => false)
+  | _ => true
 
 /-! ## sentence cleaning (corpus.py:63-103) -/
 
@@ -115,19 +241,25 @@ def isPySpace (c : Char) : Bool := pySpaces.contains c.toNat
 def strip (s : Str) : Str :=
   ((s.dropWhile isPySpace).reverse.dropWhile isPySpace).reverse
 
+/-- `id[-1:] == 'E'` / `== 'S'` -/
+def isE (tag : TimeTag) : Bool := tag.id.getLast? = some 'E'
+def isS (tag : TimeTag) : Bool := tag.id.getLast? = some 'S'
+
+section Generic
+variable {τ : Type}
+
 /-- one `<time>` tag (corpus.py:84-101); state = (result so far, last_time).
     The value is parsed before the tag type is looked at. -/
-def timeStep (cfg : Cfg) (st : Str × Rat) (tag : TimeTag) : Except Err (Str × Rat) :=
-  match parseTime cfg.fps tag.value with
+def timeStep (cfg : Cfg τ) (st : Str × τ) (tag : TimeTag) : Except Err (Str × τ) :=
+  match parseTime cfg.arith tag.value with
   | .error e => .error e
   | .ok cur =>
-    let ty := tag.id.getLast?          -- `id[-1:]` ('' for an empty id)
-    if ty = some 'S' ∧ cur - st.2 > cfg.brk then .ok ('\n' :: st.1, st.2)
-    else if ty = some 'E' then .ok (st.1, cur)
-    else if ty = some 'S' then .ok st
+    if isS tag = true ∧ cfg.arith.exceeds cur st.2 = true then .ok ('\n' :: st.1, st.2)
+    else if isE tag = true then .ok (st.1, cur)
+    else if isS tag = true then .ok st
     else .error .value
 
-def timeSteps (cfg : Cfg) : Str × Rat → List TimeTag → Except Err (Str × Rat)
+def timeSteps (cfg : Cfg τ) : Str × τ → List TimeTag → Except Err (Str × τ)
   | st, [] => .ok st
   | st, t :: ts =>
     match timeStep cfg st t with
@@ -136,7 +268,7 @@ def timeSteps (cfg : Cfg) : Str × Rat → List TimeTag → Except Err (Str × R
 
 /-- one `<s>` element: `none` = nothing yielded (`if not result: continue`
     skips the time tags as well, corpus.py:80-81). -/
-def sentenceLine (cfg : Cfg) (last : Rat) (s : Sentence) : Except Err (Option Str × Rat) :=
+def sentenceLine (cfg : Cfg τ) (last : τ) (s : Sentence) : Except Err (Option Str × τ) :=
   match joinWords s.words with
   | .error e => .error e
   | .ok joined =>
@@ -146,7 +278,7 @@ def sentenceLine (cfg : Cfg) (last : Rat) (s : Sentence) : Except Err (Option St
       | .error e => .error e
       | .ok (r, last') => .ok (some (r ++ ['\n']), last')
 
-def readCleanFrom (cfg : Cfg) : Rat → Document → Except Err (List Str)
+def readCleanFrom (cfg : Cfg τ) : τ → Document → Except Err (List Str)
   | _, [] => .ok []
   | last, s :: rest =>
     match sentenceLine cfg last s with
@@ -159,7 +291,118 @@ def readCleanFrom (cfg : Cfg) : Rat → Document → Except Err (List Str)
 /-- `list(read_clean_gzfile(path, break_duration=brk))` (corpus.py:37-103,
     `last_time = 0.0` initially). An exception anywhere discards the lines of
     the whole file (the job builds the complete list first). -/
-def readClean (cfg : Cfg) (d : Document) : Except Err (List Str) := readCleanFrom cfg 0 d
+def readClean (cfg : Cfg τ) (d : Document) : Except Err (List Str) :=
+  readCleanFrom cfg cfg.arith.zero d
+
+end Generic
+
+/-! ## where the double and the rational comparison agree
+
+`harness/run_C19.py` (`margin_ok`, `times_ok`) generates only documents in which
+every pause that could be compared with the break duration is at least one
+frame away from it, or lies between two whole-second times.  `TimesExact` is
+that guarantee as a decidable predicate; `CompareAgrees` is what it is for. -/
+
+/-- every `<time>` tag of the document, in document order (also those of
+    sentences that are skipped: the harness does not look at the words) -/
+def allTags (d : Document) : List TimeTag := d.flatMap (·.times)
+
+section Agree
+variable {τ σ : Type}
+
+/-- the time values of the tags selected by `sel` that parse in both arithmetics, paired -/
+def pairedTimes (A : Arith τ) (B : Arith σ) (sel : TimeTag → Bool) (d : Document) : List (τ × σ) :=
+  (allTags d).filterMap (fun t =>
+    if sel t then
+      match parseTime A t.value, parseTime B t.value with
+      | .ok x, .ok y => some (x, y)
+      | _, _ => none
+    else none)
+
+/-- **CompareAgrees.** On this document the two arithmetics accept the same time
+    values and give the same answer to every paragraph test that can come up:
+    `cur` the time of a tag that is not an `E` tag, `last` the time of an `E`
+    tag or the initial `0.0`.  Decidable; for closed documents the kernel
+    evaluates it (`decide +kernel`), also for `A = floatArith …`. -/
+def CompareAgrees (A : Arith τ) (B : Arith σ) (d : Document) : Prop :=
+  (∀ t ∈ allTags d, (parseTime A t.value).toBool = (parseTime B t.value).toBool) ∧
+  ∀ a ∈ pairedTimes A B (fun t => !isE t) d,
+    ∀ e ∈ (A.zero, B.zero) :: pairedTimes A B isE d,
+      A.exceeds a.1 e.1 = B.exceeds a.2 e.2
+
+instance (A : Arith τ) (B : Arith σ) (d : Document) : Decidable (CompareAgrees A B d) := by
+  unfold CompareAgrees; infer_instance
+
+end Agree
+
+/-- `margin_ok(a, e, brk)` of the harness: the pause `a - e` is at least one
+    frame away from the break duration, or both times are whole seconds -/
+def marginOk (fps : Nat) (brk a e : Rat) : Bool :=
+  decide (1 / (fps : Rat) ≤ a - e - brk) || decide (a - e - brk ≤ -(1 / (fps : Rat))) ||
+    (a.den = 1 && e.den = 1)
+
+/-- the exact times of the tags selected by `sel` whose value parses -/
+def ratTimes (fps : Nat) (sel : TimeTag → Bool) (d : Document) : List Rat :=
+  (allTags d).filterMap (fun t =>
+    if sel t then
+      match parseTime (ratArith fps 0) t.value with
+      | .ok x => some x
+      | .error _ => none
+    else none)
+
+/-- the parameters are in the range for which the rounding argument of
+    `FloatCompareAgrees` is made: `1 ≤ fps ≤ 1024`, `0 ≤ brk < 2^24` with a
+    denominator below 2^24 (so `floatOfRat brk` is one correctly rounded
+    division and `brk`, unless an integer, is at least 2^-24 away from every
+    integer).  The code has `fps = 30`, `brk = 5`; the harness also uses the
+    break durations 2, 0 and 7/2. -/
+def paramsOk (fps : Nat) (brk : Rat) : Bool :=
+  decide (1 ≤ fps) && decide (fps ≤ 1024) && decide (0 ≤ brk) && decide (brk < (fieldBound : Rat)) &&
+    decide (brk.den < fieldBound)
+
+/-- **TimesExact** (`times_ok` of `harness/run_C19.py`, plus the literal domain
+    and the parameter range the generator stays in): the parameters satisfy
+    `paramsOk`, every time value is in `LitDomain`, and every non-`E` time `a`
+    and every `E` time or `0` `e` of the document satisfy `marginOk`.  This is
+    what every generated document satisfies. -/
+def TimesExact (fps : Nat) (brk : Rat) (d : Document) : Prop :=
+  paramsOk fps brk = true ∧
+  (∀ t ∈ allTags d, LitDomain t.value = true) ∧
+  ∀ a ∈ ratTimes fps (fun t => !isE t) d, ∀ e ∈ 0 :: ratTimes fps isE d, marginOk fps brk a e = true
+
+instance (fps : Nat) (brk : Rat) (d : Document) : Decidable (TimesExact fps brk d) := by
+  unfold TimesExact; infer_instance
+
+/-- **FloatCompareAgrees — NAMED ASSUMPTION about IEEE-754 arithmetic** (not
+    provable here: Lean's `Float` operations are opaque; the kernel evaluates
+    them on closed terms only, which is how the instances in
+    `PyndlProps/C19.lean` are proved).  For this document: IF it satisfies
+    `TimesExact` THEN the double comparison of the code and the rational
+    comparison of the specification agree on it.
+
+    Why `TimesExact` implies agreement mathematically (`brkF = floatOfRat brk`
+    is the double nearest to `brk`; by `paramsOk`, `|brkF − brk| ≤ 2^-29`):
+    * all four fields are `< 2^24` (`LitDomain`), so `h*60*60`, `m*60` and
+      their sum with `s` are integers `< 2^36`, computed exactly; only `f/fps`
+      and the last `+` can round, each with relative error `≤ 2^-53`: a
+      computed time is within `2^-16` of the exact one, and the computed
+      `cur − last` (one more rounding) within `2^-14` of the exact difference;
+    * whole-second case (`a.den = 1 ∧ e.den = 1`): then `f/fps` is an integer,
+      every intermediate double and `cur − last` are exact integers, and an
+      integer `n` satisfies `n > brkF ↔ n > brk` because no integer lies between
+      `brk` and `brkF` (`brk` is an integer, then `brkF = brk`, or is `≥ 2^-24`
+      away from every integer);
+    * margin case: the exact difference is at least `1/fps ≥ 2^-10` away from
+      `brk`, the computed one within `2^-14` of it and `brkF` within `2^-29` of
+      `brk`: the two comparisons cannot come out differently.
+    The documents of the 152 pairs found by the review (e.g. `E 00:00:03,08`,
+    `S 00:00:08,08`) violate `TimesExact` (pause exactly 5 s, fractional times)
+    and `CompareAgrees` (see `C19.boundary_pair`). -/
+def FloatCompareAgrees (fps : Nat) (brk : Rat) (d : Document) : Prop :=
+  TimesExact fps brk d → CompareAgrees (floatArith fps (floatOfRat brk)) (ratArith fps brk) d
+
+instance (fps : Nat) (brk : Rat) (d : Document) : Decidable (FloatCompareAgrees fps brk d) := by
+  unfold FloatCompareAgrees; infer_instance
 
 /-! ## the per-file job (corpus.py:106-131) -/
 
@@ -177,7 +420,7 @@ inductive JobResult where
 deriving Repr, DecidableEq
 
 /-- `JobParseGz.run(filename)` -/
-def runJob (cfg : Cfg) (path : Str) : Entry → Except Err JobResult
+def runJob {τ : Type} (cfg : Cfg τ) (path : Str) : Entry → Except Err JobResult
   | .doc d =>
     match readClean cfg d with
     | .error e => .error e
@@ -292,7 +535,7 @@ structure Outcome where
   notFound : Option (Str × List Str)
 deriving Repr, DecidableEq
 
-def createCorpus (cfg : Cfg) (nThreads : Nat) (directory outfile : Str) (w : World)
+def createCorpus {τ : Type} (cfg : Cfg τ) (nThreads : Nat) (directory outfile : Str) (w : World)
     (tree : List (Str × Entry)) : Outcome :=
   if !w.dirExists then ⟨some .io, none, none⟩                   -- corpus.py:149-150
   else if w.files.contains outfile then ⟨some .io, none, none⟩   -- corpus.py:151-153
